@@ -212,6 +212,91 @@ def gen_history(rng, i: int) -> dict:
     return plan
 
 
+def gen_clock_history(rng, i: int) -> dict:
+    """Protects served from cached seed material while the wall clock moves with every reading and an interval boundary passes during
+    a call: the blob must carry the chain key of the position it is labelled with (the reference opens it from the root key)."""
+    hash_name = offline.HASHES[i % 4]
+    l1, l2 = rng.choice(((31, 31), (31, 31), (4, 31), (4, 7), (0, 0), (rng.randrange(32), rng.randrange(32))))
+    tick = rng.choice((100, 100, 300, 900, 2500))
+    boundary = gkdi.interval_start_filetime(L0, l1, l2) + gkdi.B
+    start = rng.choice(("rootkey", "rootkey", "rpc"))
+    plan = {"seed": rng.getrandbits(31), "clock_ft": boundary - rng.randrange(1, 16) * (tick // 100) + rng.randrange(0, max(1, tick // 100)), "clock_tick_ns": tick,
+            "root_keys": [[78, hash_name, rng.choice(offline.SECRETS)]], "caller_sids": [SID], "ctx": {"kind": "stub", "legs": 2, "sig": 16},
+            "dc": {"omit_l2_at_31": rng.random() < 0.5}, "ops": [], "kind": "clock", "clock_boundary": boundary, "start": start}
+    ops = plan["ops"]
+    net = "offline" if start == "rootkey" else "online"
+    if start == "rootkey":
+        ops.append({"op": "load_key", "rk": 0})
+    else:
+        # (seed material from the DC for the interval before the boundary; with the DC reachable a protect after the boundary asks again)
+        plan["clock_ft"] -= 40 * (tick // 100)
+        ops.append({"op": "protect", "fl": rng.choice(("sync", "async")), "sid": SID, "rk": 0, "net": "online", "data": 3})
+    n = rng.randint(1, 3)
+    for _ in range(n):
+        ops.append({"op": "protect", "fl": rng.choice(("sync", "async")), "sid": SID, "rk": 0, "net": net, "data": 11})
+    first = len(ops) - n
+    for k_ in range(n):
+        ops.append({"op": "unprotect", "fl": rng.choice(("sync", "async")), "net": net, "blob": {"from_op": first + k_}})
+    return plan
+
+
+def gen_thread_reload_history(rng, i: int) -> dict:
+    """The root key is (re)loaded by one caller thread while another one protects with it; afterwards, DC unreachable, blobs of
+    earlier positions must still derive (the root key covers every position, whatever the overlapping calls left in the cache)."""
+    from checks import threadpure
+
+    hash_name = offline.HASHES[i % 4]
+    now = gkdi.interval_start_filetime(L0, 31, 31) + 9
+    plan = {"seed": rng.getrandbits(31), "clock_ft": now, "root_keys": [[78, hash_name, rng.choice(offline.SECRETS)]], "caller_sids": [SID],
+            "ctx": {"kind": "stub", "legs": 2, "sig": 16}, "dc": {}, "ops": [], "kind": "history", "seedpos": [31, 31], "family": "thread-reload",
+            "threads": {"mode": "prob", "p": rng.choice((0.02, 0.05, 0.15))} if i % 3 == 0 else threadpure.policy_for(i)}
+    ops = plan["ops"]
+    ops.append({"op": "load_key", "rk": 0})
+    members = [{"op": "protect", "fl": "thread", "group": 1, "sid": SID, "rk": 0, "net": "offline", "data": 3},
+               {"op": "load_key", "fl": "thread", "group": 1, "rk": 0}]
+    if rng.random() < 0.4:
+        members.append({"op": "protect", "fl": "thread", "group": 1, "sid": SID, "rk": 0, "net": "offline", "data": 4})
+    rng.shuffle(members)
+    ops.extend(members)
+    for _ in range(rng.randint(2, 4)):
+        p = (rng.randrange(32), rng.choice((0, 31, rng.randrange(32))))
+        ops.append({"op": "unprotect", "fl": rng.choice(("sync", "async")), "net": "offline",
+                    "blob": {"rk": 0, "sid": SID, "pos": [L0, p[0], p[1]], "mode": rng.choice(("nonce", "nonce", "pub")), "data": 9}})
+    return plan
+
+
+def run_clock(plan) -> dict:
+    tr = P.execute_plan(plan)
+    probes: t.Dict[str, int] = {"clock_histories": 1}
+    viol = None
+    for ot in tr.ops:
+        if ot.op["op"] == "load_key":
+            continue
+        if ot.op["op"] == "protect":
+            try:
+                parsed = cms.parse_blob(ot.outcome.value) if ot.outcome.kind == "ok" else None
+                ok = parsed is not None and cms.unprotect_parsed(parsed, tr.root_keys[0])[0] == ot.plaintext
+            except Exception:  # noqa: BLE001
+                ok = False
+            if parsed is not None:
+                kid = parsed["key_identifier"]
+                if gkdi.interval_start_filetime(kid["l0"], kid["l1"], kid["l2"]) >= plan["clock_boundary"]:
+                    probes["clock_boundary_passed_before_key_id"] = 1
+            if not ok:
+                et, frame = drive.exc_sig(ot.outcome)
+                viol = common.violation("C02", "derivation", "moving-clock-protect-" + plan["start"], et if ot.outcome.kind != "ok" else "blob-not-openable", frame, "",
+                                        f"protect with covering seed material ({plan['start']}) while an interval boundary passes gave {ot.outcome.brief()} {ot.outcome.exc!r}; "
+                                        f"key id in blob {None if parsed is None else (kid['l0'], kid['l1'], kid['l2'])}")
+                break
+        else:
+            if ot.outcome.kind != "ok" or ot.outcome.value != ot.plaintext:
+                et, frame = drive.exc_sig(ot.outcome)
+                viol = common.violation("C02", "derivation", "moving-clock-unprotect-" + plan["start"], et if ot.outcome.kind != "ok" else "wrong-plaintext", frame, "",
+                                        f"unprotect of a blob this cache just produced gave {ot.outcome.brief()} {ot.outcome.exc!r}")
+                break
+    return {"viol": viol, "digest": tr.world.digest(), "key": common.key_hash(plan), "fired": {}, "probes": probes, "vtime_ns": tr.world.stats.get("vtime_ns", 0)}
+
+
 def run_history(plan) -> dict:
     tr = P.execute_plan(plan)
     probes: t.Dict[str, int] = {}
@@ -281,6 +366,7 @@ class C02(common.Check):
             "that must raise within 300 KDF calls; thorough: all 1024 (L1',L2') x 2 shapes for SHA512 (= the full 32x32 x 32x32 lattice) and a "
             "1/8 sample for the other hashes; quick: 48 (L1',L2') per hash biased to branch corners; (b) API histories [online unprotect at p' / "
             "load_key -> DC unreachable -> unprotect blobs at p, with a cache-served protect and / or a later load_key of the root key in between]; "
+            "(b') cache-served protects (root key loaded, or seed from the DC) under a wall clock that moves with every reading while an L0/L1/L2 boundary passes: the reference must open the blob at the position it is labelled with; "
             "(c) Byzantine DC answering with an envelope for an earlier position; (d) 2..4 caller threads of one process deriving keys at "
             "the same time on separate caches (deterministic thread scheduler): every key must equal the one derived alone. "
             "Each (seed position, requested position, shape, hash) pair counts as one evaluation. Non-trivial = pair with p != p' or a "
@@ -290,7 +376,7 @@ class C02(common.Check):
                   "transport": "simulated; 'DC unreachable' = partition"}
     assumptions = ["the lattice sweep is enumeration of workload parameters through a two-step simulated history; simulation-specific: envelope via RPC, partition, Byzantine reply"]
     required_fired = ("cover_same", "cover_same-l1", "cover_l1-1", "cover_lower", "noncover", "shape_l2_omitted", "shape_l1_absent", "history_cover",
-                      "history_noncover", "history_protect_from_seed", "history_root_key_loaded_later", "thread_cases", "thread_overlap", "byzantine_reply", "root_key_reloaded_with_other_parameters", "root_key_with_odd_edge_bytes")
+                      "history_noncover", "history_protect_from_seed", "history_root_key_loaded_later", "thread_cases", "thread_overlap", "byzantine_reply", "root_key_reloaded_with_other_parameters", "root_key_with_odd_edge_bytes", "clock_histories", "clock_boundary_passed_before_key_id")
 
     def exhaustive(self, tier):
         return tier == "thorough"
@@ -318,6 +404,10 @@ class C02(common.Check):
         n_hist = 1200 if tier == "quick" else 40000
         for i in range(n_hist):
             out.append(gen_history(rng, i))
+        for i in range(500 if tier == "quick" else 20000):
+            out.append(gen_clock_history(rng, i))
+        for i in range(400 if tier == "quick" else 16000):
+            out.append(gen_thread_reload_history(rng, i))
         from checks import threadpure
 
         for k in range(900 if tier == "quick" else 30000):
@@ -332,6 +422,8 @@ class C02(common.Check):
             return run_threads(case)
         if isinstance(case, list):
             return run_lattice(case)
+        if case.get("kind") == "clock":
+            return run_clock(case)
         return run_history(case)
 
     def shrink(self, case):
@@ -341,6 +433,7 @@ class C02(common.Check):
             yield from threadpure.shrinks(case, 3, 2, run_threads)
             return
         if isinstance(case, dict):
+            yield from P.thread_shrinks(case)
             ops = case["ops"]
             for i in range(1, len(ops)):
                 if len(ops) > 2:
